@@ -1212,7 +1212,7 @@ impl<'a> Tokenizer<'a> {
                     match chars.peek() {
                         Some('|') => self.consume_and_return(chars, Token::QuestionPipe),
                         Some('&') => self.consume_and_return(chars, Token::QuestionAnd),
-                        _ => self.consume_and_return(chars, Token::Question),
+                        _ => Ok(Some(Token::Question)),
                     }
                 }
                 '?' => {
